@@ -40,7 +40,7 @@ MANIFEST = {
                   'constructor-keyword vs attribute-read comparison on the Python classes; '
                   'enum-table totality/injectivity; write-after-copy dataflow'
                   '; member-wise evaluation of enum dispatch functions (enumeval); truthiness of plain string fields; name-keyed merging of conditional children; naive-UTC time helpers; shared C10.R1/R6, C16.R8'
-                  "; cleared-before-rebuilt check for repeated fields of a remembered proto (dominators over the schema's repeated fields); order-preservation provenance for measurements"),
+                  "; cleared-before-rebuilt check for repeated fields of a remembered proto (dominators over the schema's repeated fields); order-preservation provenance for measurements; finite-model interpretation of each enum table pair: reverse-table expression and both lookup methods evaluated on the forward table (from_proto(to_proto(m)) == m per member)"),
     'level_text': (
         'Static: every field a converter writes is read by its inverse and vice versa, on both '
         'the proto side and the Python-object side; optional scalar presence is decided with '
